@@ -678,3 +678,70 @@ pub fn trace_cmd(path: &str) -> i32 {
     let _ = std::fs::remove_dir_all(scratch_root());
     0
 }
+
+/// `sim hash <prop> <start> <step> <count>`: print "index trace-hash" for the given run indices.
+pub fn hash_cmd(prop: &str, start: u64, step: u64, total: u64, verif_seed: u64) -> i32 {
+    let root = format!("{}/r", scratch_root());
+    let img = format!("{}/img", scratch_root());
+    let mut idx = start;
+    while idx < total {
+        let seed = run_seed(verif_seed, prop, idx);
+        let spec = props::make_spec(prop, seed);
+        let out = props::execute(prop, &spec, &root);
+        // include the post-hoc analysers' verdicts (quick tier) in the fingerprint
+        let mut an = Analysis::default();
+        props::analyse(prop, &spec, &out, false, None, &img, &mut an);
+        let classes: Vec<String> = an.witnesses.iter().map(|(v, _)| v.class.clone()).collect();
+        println!("{idx} {:016x} {:016x} {}", trace_hash(&out), rng::str_hash(&classes.join("|")), an.crash.images);
+        idx += step;
+    }
+    let _ = std::fs::remove_dir_all(scratch_root());
+    0
+}
+
+/// Determinism proof: every property, `n` run indices, executed (a) in one process and (b) strided
+/// over 16 processes started concurrently; the two listings must be identical.
+pub fn selfcheck_cmd(n: u64, verif_seed: u64) -> i32 {
+    let exe = std::env::current_exe().expect("exe");
+    let mut bad = 0;
+    let mut pairs = 0;
+    for prop in props::PROPS {
+        let run = |start: u64, step: u64| -> Vec<String> {
+            let o = Command::new(&exe).args(["hash", prop, &start.to_string(), &step.to_string(), &n.to_string()]).env("VERIF_SEED", verif_seed.to_string()).output().expect("run hash");
+            String::from_utf8_lossy(&o.stdout).lines().map(|l| l.to_string()).collect()
+        };
+        let single = run(0, 1);
+        let mut kids = vec![];
+        for j in 0..16u64 {
+            kids.push(
+                Command::new(&exe)
+                    .args(["hash", prop, &j.to_string(), "16", &n.to_string()])
+                    .env("VERIF_SEED", verif_seed.to_string())
+                    .stdout(std::process::Stdio::piped())
+                    .spawn()
+                    .expect("spawn hash"),
+            );
+        }
+        let mut multi: Vec<String> = vec![];
+        for k in kids {
+            let o = k.wait_with_output().expect("wait");
+            multi.extend(String::from_utf8_lossy(&o.stdout).lines().map(|l| l.to_string()));
+        }
+        multi.sort_by_key(|l| l.split(' ').next().unwrap().parse::<u64>().unwrap_or(0));
+        pairs += single.len();
+        if single.len() as u64 != n || single != multi {
+            bad += 1;
+            let diff = single.iter().zip(multi.iter()).find(|(a, b)| a != b);
+            println!("selfcheck {prop}: MISMATCH ({} vs {} lines) first difference: {:?}", single.len(), multi.len(), diff);
+        } else {
+            println!("selfcheck {prop}: {n} runs identical in 1 process and strided over 16 concurrent processes");
+        }
+    }
+    println!("selfcheck: {pairs} run pairs compared, {bad} properties with a mismatch");
+    if bad > 0 {
+        eprintln!("HARNESS-ERROR: nondeterminism");
+        2
+    } else {
+        0
+    }
+}
